@@ -10,3 +10,7 @@ claim("C20",
       "exhaustive small-scope enumeration (pad/crop, subarray tables) plus property-based index-set oracles and metamorphic symmetry/translation relations",
       "pad/crop and subarray are enumerated completely for all size pairs 1..9 (2-D and cubes) against an index-set reference; boundary, boundary_slice, slice_offset, centroid and rebin are compared with direct definitions on generated masks; drawn shapes are checked for range, binarity, exact integer translation, half-turn and mirror symmetry; hex_segments for count, area, disjointness and border clearance.",
       "Binary-shape symmetry ignores samples within 1e-9 of an edge; border clearance is required from pad>=1 (binary) / pad>=2 (antialiased); sizes bounded (<= 64).")
+claim("C02",
+      "property-based differential test: lentil propagation vs extended-precision Fraunhofer sum of an independently modelled input field",
+      "Each generated optical configuration (aperture chain, per-axis pixel scales, wavelength, focal length, oversampling, output shape, propagation shape, output mask, optional image->pupil leg) is propagated with lentil and compared sample by sample with the longdouble defining sum of the model field on the evaluated window, exact zero outside it, plus the result's metadata.",
+      "Input field comes from the plane model (pointwise phasors), so Plane.multiply is covered too; chains with a single-sample intermediate field are excluded (one-element fields are infinite constants by C06); bounded sizes.")
